@@ -103,17 +103,40 @@ func main() {
 		return
 	}
 
-	r, ok := registry[*prop]
-	if !ok {
-		fmt.Fprintf(os.Stderr, "unknown property %q\n", *prop)
-		os.Exit(2)
+	var ids []string
+	if *prop == "all" {
+		for id := range registry {
+			ids = append(ids, id)
+		}
+		sort.Strings(ids)
+	} else {
+		ids = strings.Split(*prop, ",")
 	}
-	code := runProp(*prop, *tier, *repo, *verifDir, r)
+	for _, id := range ids {
+		if _, ok := registry[id]; !ok {
+			fmt.Fprintf(os.Stderr, "unknown property %q\n", id)
+			os.Exit(2)
+		}
+	}
+	code := 0
+	var shared *Program
+	var loadErr error
+	if len(ids) > 1 {
+		shared, loadErr = Load(*repo, nil)
+	}
+	for _, id := range ids {
+		if rc := runProp(id, *tier, *repo, *verifDir, registry[id], shared, loadErr); rc != 0 {
+			code = rc
+		}
+	}
 	os.Exit(code)
 }
 
-func runProp(prop, tier, repo, verifDir string, r *propRunner) (code int) {
-	p, err := Load(repo, nil)
+func runProp(prop, tier, repo, verifDir string, r *propRunner, shared *Program, sharedErr error) (code int) {
+	p, err := shared, sharedErr
+	if p == nil && err == nil {
+		p, err = Load(repo, nil)
+	}
 	var c *Check
 	if err != nil {
 		c = NewCheck(prop, tier, &Program{Dir: repo})
